@@ -293,3 +293,19 @@ package putsvc
 //@   property C22
 //@   callee ec.NodeSequenceForPart
 //@   requires [order_for_this_part_over_this_node_list] a0 == partIdx && a1 == totalParts && a2 == len(nodeList)
+
+// ---- C24 (objects handed to the post-placement replicator): the node's replicator queues the
+// task and a worker marshals the object later - and stores it locally, unchecked, when this
+// node is among the remaining ones. The PUT pipeline's payload buffers are pooled and handed
+// out again once the stream is closed, so the object passed on must own its payload: a copy
+// (bytes.Clone), not a window of a pooled buffer.
+//@ ghost pred ownsItsPayload(o *object.Object) bool
+//@ callrule c24_payload_copy_for_the_replicator in *
+//@   property C24
+//@   optional
+//@   callee (*object.Object).SetPayload
+//@   defines resultOf(a0, "bytes.Clone") ==> ownsItsPayload(self)
+//@ callrule c24_async_replicator_gets_an_object_that_owns_its_payload in *
+//@   property C24
+//@   callee (put.PostPlacementReplicator).HandlePostPlacement
+//@   requires [payload_is_a_copy_not_a_window_of_a_pooled_buffer] ownsItsPayload(a0)
